@@ -1,3 +1,13 @@
 -- Root of the GardenVerif library: models, lemmas and property theorems.
+import GardenVerif.Props.C01Lex
+import GardenVerif.Props.C04
+import GardenVerif.Props.C08
+import GardenVerif.Props.C12
+import GardenVerif.Props.C13
 import GardenVerif.Props.C14
 import GardenVerif.Props.C15
+import GardenVerif.Props.C23
+import GardenVerif.Props.C29
+import GardenVerif.Props.C30
+import GardenVerif.Props.C31
+import GardenVerif.Props.C32
